@@ -153,6 +153,17 @@ func vC41_pbKey(name string) *internalpb.CRDTKey {
 	return &internalpb.CRDTKey{Id: vC41_key(name), DataType: internalpb.CRDTDataType(vNondetInt32(name + "Type"))}
 }
 
+// a wire key the real codec.DecodeCRDTKey accepts
+func vC41_validKey(k *internalpb.CRDTKey) bool {
+	return k != nil && k.GetDataType() >= internalpb.CRDTDataType_CRDT_DATA_TYPE_G_COUNTER && k.GetDataType() <= internalpb.CRDTDataType_CRDT_DATA_TYPE_MV_REGISTER
+}
+
+func vC41_deadNow(r *replicatorActor, key string) bool {
+	ts, dead := r.tombstones[key]
+	_, has := r.store[key]
+	return dead && ts != nil && !has
+}
+
 func vC41_coord(name string) crdt.Coordination { return crdt.Coordination(vChoose(name, 3)) }
 
 func vC41_replicator() (*replicatorActor, *PID) {
@@ -278,6 +289,27 @@ func vC41_step() {
 		}
 		vAssert(!shown, "Get of a tombstoned key exposes no value")
 		vCover("get-tombstoned")
+	}
+	// ---- a replica that has handled a delete / received a tombstone for k holds the tombstone (and no value) afterwards,
+	// whatever it knew about k before - including nothing at all (the tombstone may overtake the key's first delta)
+	switch kind {
+	case 2:
+		d := msg.(vC41Delete)
+		vAssert(vC41_deadNow(r, d.key), "after a local Delete of k the replica holds a tombstone for k and no value")
+		vCover("deleted-locally")
+	case 5:
+		m := msg.(*internalpb.CRDTTombstone)
+		if vC41_validKey(m.GetKey()) && m.GetDeletedByNode() != r.nodeID {
+			vAssert(vC41_deadNow(r, m.GetKey().GetId()), "after receiving a peer's tombstone for k the replica holds a tombstone for k and no value, even if it had never seen k")
+			vCover("tombstone-received")
+		}
+	case 7:
+		b := msg.(*internalpb.CRDTDeltaBatch)
+		foreign := b.GetOriginDc() == nil || b.GetOriginDc().GetName() != r.dc.Name
+		if foreign && len(b.GetTombstones()) == 1 && vC41_validKey(b.GetTombstones()[0].GetKey()) {
+			vAssert(vC41_deadNow(r, b.GetTombstones()[0].GetKey().GetId()), "after a cross-DC batch carrying a tombstone for k the replica holds a tombstone for k and no value")
+			vCover("batch-tombstone-received")
+		}
 	}
 	for i := 0; i < 3; i++ {
 		ts, dead := r.tombstones[vC41_keys[i]]
